@@ -321,9 +321,60 @@ def gen(repo):
                                                                '_compare_function', '_issequence') \
                     and ch.name not in allowed:
                 raise TranslationError('%s overrides %s' % (cls, ch.name))
+    # ---- how the result is materialised: by ROW ID (pinned; Model.Select.selectrowid / getrowidkey mirror it) ----
+    # DataMatrix._selectrowid re-reads every column through _getrowidkey; BaseColumn looks each id up in its
+    # Index (dict position cache), NumericColumn through a cached argsort of its row ids + searchsorted.  Both
+    # are `lookup by row id` on duplicate-free ids (Props/C01.v: dict lookup = positional, argsort+searchsorted
+    # = positional; Props/C02.v C02_l_select_refines).  A shortcut keyed on the end points, a stale cache or a
+    # positional read changes these statements and is refused here.
+    def pin_body(tree, qual, plist, stmts):
+        fn = find_function(tree, qual)
+        params(fn, plist)
+        body = body_nodoc(fn)
+        if len(body) != len(stmts):
+            raise TranslationError('%s: %d statements, expected %d (pinned body changed)' % (qual, len(body), len(stmts)))
+        for node, src in zip(body, stmts):
+            expect_same(node, src, qual)
+
+    dmod = load(repo, 'datamatrix/_datamatrix/_datamatrix.py')
+    pin_body(dmod, 'DataMatrix._selectrowid', ['self', '_rowid'], [
+        'dm = DataMatrix(len(_rowid))',
+        "object.__setattr__(dm, u'_rowid', _rowid)",
+        "object.__setattr__(dm, u'_id', self._id)",
+        'for name, col in self._cols.items():\n'
+        '    dm._cols[name] = self._cols[name]._getrowidkey(_rowid)\n'
+        '    dm._cols[name]._datamatrix = dm',
+        'return dm'])
+    pin_body(base, 'BaseColumn._getrowidkey', ['self', 'key'], [
+        'col = self._empty_col()',
+        'col._rowid = key',
+        'col._seq = [self._seq[self._rowid.index(_rowid)] for _rowid in key]',
+        'return col'])
+    pin_body(num, 'NumericColumn._getrowidkey', ['self', 'key'], [
+        'col = self._empty_col()',
+        'orig_indices = self._rowid_argsort()',
+        'matching_indices = np.searchsorted(self._rowid[orig_indices], key)',
+        'selected_indices = orig_indices[matching_indices]',
+        'col._rowid = self._rowid[selected_indices]',
+        'col._seq = self._seq[selected_indices]',
+        'return col'])
+    pin_body(num, 'NumericColumn._rowid_argsort', ['self'], [
+        'try:\n    rowid_hash = self._rowid.tobytes()\nexcept AttributeError:\n    rowid_hash = self._rowid.tostring()',
+        'if rowid_hash == self._rowid_argsort_cache[0]:\n    return self._rowid_argsort_cache[1]',
+        'self._rowid_argsort_cache = rowid_hash, self._rowid.argsort()',
+        'return self._rowid_argsort_cache[1]'])
+    for cls in ('IntColumn', 'FloatColumn'):
+        c = find_function(num, cls)
+        for ch in c.body:
+            if isinstance(ch, ast.FunctionDef) and ch.name in ('_getrowidkey', '_rowid_argsort', '_compare_value',
+                                                               '_compare_sequence'):
+                raise TranslationError('%s overrides %s' % (cls, ch.name))
+    out.append('(* pinned, not translated: DataMatrix._selectrowid, BaseColumn._getrowidkey, NumericColumn._getrowidkey,\n'
+               '   NumericColumn._rowid_argsort -- the result is read back by row id *)\n')
     mixed = load(repo, 'datamatrix/_datamatrix/_mixedcolumn.py')
     for ch in ast.walk(mixed):
         if isinstance(ch, ast.FunctionDef) and (ch.name.startswith('_compare') or ch.name in (
-                '__eq__', '__ne__', '__lt__', '__le__', '__gt__', '__ge__', '_issequence', '_tosequence', '_checktype')):
+                '__eq__', '__ne__', '__lt__', '__le__', '__gt__', '__ge__', '_issequence', '_tosequence', '_checktype',
+                '_getrowidkey')):
             raise TranslationError('MixedColumn overrides %s' % ch.name)
     return ''.join(out)
